@@ -74,6 +74,7 @@ func cmdCheck(args []string) int {
 	known := fs.String("known", "/verif/KNOWN_FINDINGS.txt", "")
 	replace := fs.String("replace", "", "repoFile=localFile,... (overlay replacement; experiments only)")
 	noEv := fs.Bool("no-evidence", false, "do not write the evidence file (experiments)")
+	nwit := fs.Int("witness", 1, "completed paths per instance whose model is replayed natively (translator validation); 0 = off")
 	fs.Parse(args)
 	verbose = *cf.v
 	t0 := time.Now()
@@ -115,7 +116,7 @@ func cmdCheck(args []string) int {
 	}
 	loadT := time.Since(t0)
 	eng := newEngine(prog)
-	ck := &Checker{eng: eng, repo: *cf.repo, harness: *cf.harness, solverBin: *cf.z3, workers: *cf.workers, extra: extra}
+	ck := &Checker{eng: eng, repo: *cf.repo, harness: *cf.harness, solverBin: *cf.z3, workers: *cf.workers, extra: extra, witnesses: *nwit}
 	states := ck.explore(insts)
 	exploreT := time.Since(t0) - loadT
 
@@ -152,7 +153,7 @@ func cmdCheck(args []string) int {
 				v.replay = "skipped"
 			}
 		}
-		if need {
+		if need || len(st.wits) > 0 {
 			toReplay = append(toReplay, st)
 		}
 	}
@@ -249,6 +250,28 @@ func cmdCheck(args []string) int {
 			lines = append(lines, fmt.Sprintf("NOTE property=%s listed known finding not observed in tier %s: %s", *prop, *tier, kf.key))
 		}
 	}
+	// translator validation: completed paths replayed natively must complete natively too
+	nWit, nWitOK := 0, 0
+	for _, st := range states {
+		for _, w := range st.wits {
+			if w.replay == "" || w.replay == "skipped" {
+				continue
+			}
+			nWit++
+			if w.replay == "confirmed" {
+				nWitOK++
+			} else {
+				lines = append(lines, fmt.Sprintf("WITNESS-MISMATCH property=%s instance=%s the native run of a completed symbolic path differs: %s (%s) file=%s", *prop, st.in.Name, w.replay, w.replayMsg, w.replayFile))
+				// a native panic or failed assertion on a path the symbolic run completed cleanly means the encoding
+				// does not represent the code there: the verdict for the property cannot be "held"
+				if (strings.Contains(w.replayMsg, "result=panic") || strings.Contains(w.replayMsg, "result=assert")) && exit == 0 {
+					lines = append(lines, fmt.Sprintf("INCONCLUSIVE property=%s reason=%s: translator validation failed (native run of a completed symbolic path panicked or failed an assertion)", *prop, st.in.Name))
+					exit = 2
+				}
+			}
+		}
+	}
+	lines = append(lines, fmt.Sprintf("WITNESSES property=%s completed symbolic paths replayed natively: %d, agreeing: %d", *prop, nWit, nWitOK))
 	if nViol > 0 {
 		exit = 1
 	}
@@ -339,11 +362,12 @@ func writeEvidence(dir, prop, tier string, seed int, states []*instState, wall, 
 	cov := map[string]interface{}{
 		"states":                        paths,
 		"transitions":                   steps,
-		"traces_validated_against_impl": confirmed,
+		"traces_validated_against_impl": confirmed + witnessesOK(states),
+		"witness_paths_replayed":        witnessesRun(states),
 		"samples":                       samples,
 		"evaluations":                   queries,
 		"distinct_nontrivial":           oblU + oblS,
-		"rule":                          "evaluations = SMT queries sent by this run (feasibility + obligations); distinct_nontrivial = obligation queries (implicit panic/bounds/alloc checks and harness assertions whose failure condition did not fold to a constant) decided unsat or sat; states = completed symbolic paths; transitions = SSA instructions executed symbolically; traces_validated_against_impl = solver counterexamples replayed against the natively compiled code and confirmed",
+		"rule":                          "evaluations = SMT queries sent by this run (feasibility + obligations); distinct_nontrivial = obligation queries (implicit panic/bounds/alloc checks and harness assertions whose failure condition did not fold to a constant) decided unsat or sat; states = completed symbolic paths; transitions = SSA instructions executed symbolically; traces_validated_against_impl = solver models replayed against the natively compiled code with the same outcome: counterexamples that reproduced, plus models of completed violation-free paths (translator validation, -witness N per instance) whose native run also completed without a failed assertion or panic",
 		"exhaustive":                    allDone,
 		"explanation":                   "bounded symbolic execution of the real go/ssa of /repo/v8 (regenerated on this run); every path inside the stated bounds explored; each obligation decided by z3 5.1.0 over all values of the symbolic inputs",
 		"instances":                     instList,
@@ -377,4 +401,29 @@ func inputHex(in []InputVal, max int) []string {
 		out = append(out, v.Hex)
 	}
 	return out
+}
+
+
+func witnessesOK(states []*instState) int {
+	n := 0
+	for _, st := range states {
+		for _, w := range st.wits {
+			if w.replay == "confirmed" {
+				n++
+			}
+		}
+	}
+	return n
+}
+
+func witnessesRun(states []*instState) int {
+	n := 0
+	for _, st := range states {
+		for _, w := range st.wits {
+			if w.replay != "" && w.replay != "skipped" {
+				n++
+			}
+		}
+	}
+	return n
 }
